@@ -82,12 +82,13 @@ theorem genOps_ok : @NextLowerOk genOps ∧ @MacsOk genOps Stream := by
 
 /-- builder S — `Session::handle_rx` with the regenerated `handle_downlink_macs` inside is the model's
 `sessionHandleRx`: `tieA_handle_rx_accept` with `S` := every command stream and NO simulation hypothesis (builder X: for a downlink-typed
-frame, `hup`; uplink-typed frames: `TieA.Rx.handle_rx_uplink_typed`, instance-independent) -/
+frame, `hup`; uplink-typed frames: `TieA.Rx.handle_rx_uplink_typed`, instance-independent; builder Y: carrying the
+session's DevAddr if it fits, `haddr`; frames addressed to another device: `TieA.Rx.handle_rx_other_devaddr`, instance-independent) -/
 theorem handle_rx_full (D : Int) (gs : Gen.SessionRx.Session) (rs : RegionState) (g : Gen.SessionRx.Configuration)
     (rx : Gen.SessionRx.RadioBuffer) (dl : List Gen.SessionRx.Downlink) (maxp snr : Int) (ign : Bool)
     (e : Gen.SessionRx.EncryptedDataPayload)
     (hparse : rx.as_mut_for_read.parse = some e) (hup : e.is_uplink = false)
-    (haddr : e.fhdr.dev_addr = gs.devaddr)
+    (haddr : ¬ (e.as_bytes.length : Int) > maxp + 5 → e.fhdr.dev_addr = gs.devaddr)
     (hw : SessWF gs) (hmax : 0 ≤ maxp ∧ maxp ≤ 255) (hwire : 0 ≤ e.fhdr.fcnt)
     (hdec : ∀ f, Gen.SessionRx.next_fcnt_down gs.fcnt_down e.fhdr.fcnt = some f → e.validate_mic (nwkOf gs) f = true →
       ∃ d, rx.as_mut_for_read.decrypt_in_place (some (nwkOf gs)) (some (appOf gs)) f = some d ∧ DecWF Stream d) :
@@ -118,7 +119,7 @@ example :
       = (sessionHandleRx (sessOf exSess) (cfgOf exCfg) (RegionState.init .EU868) (dataOf exSess exEnc (decOf exSess exRx exEnc))
           (250 : Int).toNat 3 false).toOption.map (expect [] 4) := by
   have hf5 : Gen.SessionRx.next_fcnt_down exSess.fcnt_down exEnc.fhdr.fcnt = some 5 := by decide
-  refine handle_rx_full 4 exSess (RegionState.init .EU868) exCfg exRx [] 250 3 false exEnc rfl rfl rfl ?_ (by omega) (by decide) ?_
+  refine handle_rx_full 4 exSess (RegionState.init .EU868) exCfg exRx [] 250 3 false exEnc rfl rfl (fun _ => rfl) ?_ (by omega) (by decide) ?_
   · refine ⟨by decide, by decide, by decide, by decide, ?_⟩
     intro f hf
     have : f = 4 := by simpa [exSess] using hf.symm
